@@ -217,6 +217,61 @@ func runC18JSON(t *vs.Tape, cfg map[string]string) (res vs.Result) {
 		}
 		c.Inc("second_path_saves")
 	}
+	// loads onto a scanner that already holds signatures (a long-lived process
+	// re-reading its database): a load that is rejected must leave what was
+	// added fetchable with identical content; a load that succeeds must give
+	// the new file's signatures, not a blend with the previous ones
+	{
+		scP := NewScanner()
+		if err := scP.LoadDatabase(simFile); err != nil {
+			return fail(vs.Violationf("C18/json-roundtrip", "LoadDatabase: %v", err))
+		}
+		bad := simDir + "/schema-invalid.json"
+		badDoc := vs.Pick(t, "j.bad", `{"version":"1.0","description":"x","signatures":[{"id":"X1","name":"x1","topology_hash":"h1","entropy_score":1.5,"fuzzy_hash":"F"},{"id":"X2","name":7}]}`,
+			`{"version":"1.0","signatures":[{"id":"X1","name":"x1","topology_hash":"h1","node_count":3},{"id":"X2","name":"x2","topology_hash":"h2","no_such_field":true},{"id":"X3","name":"x3","entropy_score":"high"}]}`,
+			`{"version":"1.0","signatures":[{"id":"X1","name":"x1","topology_hash":"h1"}],"signatures_total":"one"}{`)
+		d.WriteFile(bad, []byte(badDoc), 0o600)
+		if err := scP.LoadDatabase(bad); err != nil {
+			c.Inc("rejected_loads_on_populated_store")
+			if v := checkGets(scP, m, "after a rejected LoadDatabase on a populated store"); v != nil {
+				v.Class = "C18/json-rejected-load/" + v.Class
+				return fail(v)
+			}
+		}
+		// a sparse database (optional fields absent) loaded over a populated store
+		scB := NewScanner()
+		mB := &jModel{last: map[string]detection.Signature{}}
+		nB := 1 + t.Intn(3, "j.sparse.n")
+		for i := 0; i < nB; i++ {
+			sp := detection.Signature{ID: fmt.Sprintf("SP%d", i), Name: "sparse", TopologyHash: jHashes[i%len(jHashes)]}
+			if err := scB.AddSignature(&sp); err != nil {
+				return fail(vs.Violationf("C18/json-add-error", "AddSignature: %v", err))
+			}
+			mB.add(sp)
+		}
+		sparse := simDir + "/sparse.json"
+		if err := scB.SaveDatabase(sparse); err != nil {
+			return fail(vs.Violationf("C18/json-save-error", "SaveDatabase: %v", err))
+		}
+		scQ := NewScanner()
+		if err := scQ.LoadDatabase(simFile); err != nil {
+			return fail(vs.Violationf("C18/json-roundtrip", "LoadDatabase: %v", err))
+		}
+		if err := scQ.LoadDatabase(sparse); err != nil {
+			return fail(vs.Violationf("C18/json-roundtrip", "LoadDatabase of a well-formed file onto a populated store: %v", err))
+		}
+		for _, want := range mB.list {
+			id := want.ID
+			got, err := scQ.GetSignature(id)
+			if err != nil {
+				return fail(vs.Violationf("C18/json-reload/miss", "after LoadDatabase(sparse file) onto a populated store: GetSignature(%q): %v", id, err))
+			}
+			if simsig.Norm(*got) != simsig.Norm(want) {
+				return fail(vs.Violationf("C18/json-reload/content", "after LoadDatabase(sparse file) onto a populated store: GetSignature(%q) differs field for field:\n got  %s\n file %s", id, simsig.Norm(*got), simsig.Norm(want)))
+			}
+		}
+		c.Inc("reloads_on_populated_store")
+	}
 	// every truncation point of the saved file: loading must fail or give the
 	// complete database, never a silent prefix
 	if saved, err := d.ReadFile(simFile); err == nil && len(saved) < 6000 {
